@@ -19,7 +19,7 @@ def gen_tree(rng, depth, maxdepth, in_domain=True):
     if k < 0.72:
         d = {}
         for _ in range(rng.randint(0, 3)):
-            key = rng.choice(NAMES) if rng.random() < 0.95 else rng.choice(["A b", "n.1", "Ünï"])
+            key = rng.choice(NAMES) if rng.random() < 0.92 else rng.choice(["A b", "n.1", "Ünï", ".meta", ".a", "a.", "..b"])
             d[key] = gen_tree(rng, depth + 1, maxdepth, in_domain)
         return d
     n = rng.randint(0, 3)
